@@ -1282,3 +1282,39 @@ int simgomp_is_trace_build(void) {
     return 0;
 #endif
 }
+
+/* ------------------------------------------------------------------------------ */
+/* BLAS: dgemm is the only level-3 call made inside parallel regions with a possibly
+ * shared output (C := alpha A B + beta C).  Real BLAS is an atomic step for the simulator,
+ * which would hide a lost update on C between two threads; in the simtrace build dgemm_ is
+ * therefore routed here and split into  read C -> compute into a private copy -> write C
+ * with a pre-emption point between the phases (inside pre-emption windows only). */
+extern void dgemm_(const char *, const char *, const int *, const int *, const int *,
+                   const double *, const double *, const int *, const double *, const int *,
+                   const double *, double *, const int *);
+static uint64_t g_dgemm_split = 0;
+void sim_dgemm_(const char *ta, const char *tb, const int *m, const int *n, const int *k,
+                const double *alpha, const double *a, const int *lda, const double *b,
+                const int *ldb, const double *beta, double *c, const int *ldc) {
+    if (!g_cur || !g_in_window || *m <= 0 || *n <= 0) {
+        dgemm_(ta, tb, m, n, k, alpha, a, lda, b, ldb, beta, c, ldc);
+        return;
+    }
+    g_dgemm_split++;
+    size_t mm = (size_t)*m, nn = (size_t)*n;
+    double *tmp = (double *)malloc(mm * nn * sizeof(double));
+    for (size_t j = 0; j < nn; j++)
+        memcpy(tmp + j * mm, c + j * (size_t)(*ldc), mm * sizeof(double));
+    {
+        ACCESS_BODY
+    }
+    int ldt = *m;
+    dgemm_(ta, tb, m, n, k, alpha, a, lda, b, ldb, beta, tmp, &ldt);
+    {
+        ACCESS_BODY
+    }
+    for (size_t j = 0; j < nn; j++)
+        memcpy(c + j * (size_t)(*ldc), tmp + j * mm, mm * sizeof(double));
+    free(tmp);
+}
+uint64_t simgomp_dgemm_splits(void) { return g_dgemm_split; }
